@@ -95,6 +95,10 @@ def plan_mutator(plan, msg_proc):
             try:
                 msg = plan_stack[-1].throw(exception)
             except StopIteration as e:
+                # the generator handled the exception and finished, so the
+                # exception is consumed and there is no response to pass on
+                exception = None
+                ret = None
                 # discard the exhausted generator
                 exhausted_gen = plan_stack.pop()
                 # if this is the parent plan, capture it's return value
